@@ -15,7 +15,9 @@ reg("C19", "a calculation either completes or leaves its data bases untouched",
          "labelled invalid-argument variant of the calculator from fresh clones: reported failure => both Dbs equal to "
          "their snapshots (accepted => success oracles); (4) after each reported failure that left the Dbs clean, the valid "
          "call on THE SAME objects must succeed and create the same columns bit for bit as in the fresh state. "
-         "Snapshots through public getters only (harness/common/c19_snapshot.hpp), columns matched by UID. "
+         "Snapshots through public getters only (harness/common/c19_snapshot.hpp), columns matched by UID. A difference that "
+         "matches the narrow rule of an open root cause (calculator family + failure kind + Db + exactly which columns / "
+         "locator types; harness emitDiff) is keyed C19:D<n>:<root-cause>, anything else C19:<calculator>:<kind>:<db>-<what>. "
          "distinct = distinct (calculator, discrete variant) signatures with at least one oracle evaluated; the number of "
          "(site, k) pairs enumerated / fired is the evaluation count of the oracles inject-fired / inject-reports-failure",
     level="fault_enumeration",
